@@ -247,14 +247,15 @@ Definition last_indexed {A} (l : list A) : option (nat * A) :=
   | x :: _ => Some (pred (length l), x)
   end.
 
-(* over_clause is a tuple, hence truthy even when it is (None, None) *)
-Definition get_window (kids : list node) : res pnode :=
+(* `_, over_clause = self.token_next_by(i=Over)`; None when there is no OVER clause
+   (since the library fix "Function.get_window() returns None when there is no OVER clause") *)
+Definition get_window (kids : list node) : res (option pnode) :=
   match next_by_i COver kids with
-  | None => Err AttributeError                            (* None.tokens *)
+  | None => Ok None
   | Some (o, ov) =>
       match last_indexed (nkids ov) with
       | None => Err IndexError
-      | Some (j, t) => Ok ([o; j], t)
+      | Some (j, t) => Ok (Some ([o; j], t))
       end
   end.
 
@@ -379,7 +380,7 @@ Definition accessors (n : node) : list (aname * aval) :=
       | CIdentifierList => [(A_get_identifiers, v_kids (get_identifiers kids))]
       | CFunction =>
           [(A_get_parameters, v_res v_pnodes (get_parameters kids));
-           (A_get_window, v_res (fun pn : pnode => VPath (fst pn)) (get_window kids))]
+           (A_get_window, v_res (v_opt (fun pn : pnode => VPath (fst pn))) (get_window kids))]
       | CCase =>
           [(A_get_cases, v_res (fun l => VList (map v_case l)) (get_cases false kids));
            (A_get_cases_skip, v_res (fun l => VList (map v_case l)) (get_cases true kids))]
